@@ -3,6 +3,7 @@ package main
 // Symbolic interpreter over go/ssa.
 
 import (
+	"time"
 	"os"
 	"sync"
 	"fmt"
@@ -83,6 +84,7 @@ type Interp struct {
 	curPanic     *goPanic
 	steps        int
 	maxSteps     int
+	deadline     time.Time
 	unwind       int
 	mapOrderAll  bool
 	callDepth    int
@@ -654,6 +656,9 @@ func (in *Interp) runBlocks(fr *Frame, start *ssa.BasicBlock) {
 			if in.steps > in.maxSteps {
 				panic(budgetExceeded{"step budget"})
 			}
+			if in.steps&0x3ff == 0 && !in.deadline.IsZero() && time.Now().After(in.deadline) {
+				panic(budgetExceeded{"instance timeout (inside a path)"})
+			}
 			if p := ins.Pos(); p.IsValid() {
 				in.lastPos = p
 			}
@@ -778,6 +783,7 @@ func (in *Interp) obligation(safe *Term, kind string) {
 		in.recordViolation("panic", kind, "runtime panic: "+kind)
 		panic(abortPath{"panic reported"})
 	}
+	in.checkDeadline()
 	r := in.sol.CheckWith(in.tb.Not(safe))
 	switch r {
 	case Sat:
@@ -891,7 +897,16 @@ func (in *Interp) noteFacts(c *Term) {
 }
 
 // branch decides a (possibly symbolic) condition, forking the exploration if both sides are feasible.
+func (in *Interp) checkDeadline() {
+	if !in.deadline.IsZero() && time.Now().After(in.deadline) {
+		panic(budgetExceeded{"instance timeout (inside a path)"})
+	}
+}
+
 func (in *Interp) branch(c *Term) bool {
+	if !c.IsConst() {
+		in.checkDeadline()
+	}
 	if c.IsConst() {
 		return c.C == 1
 	}
